@@ -39,6 +39,56 @@ CLAIMED = {
    text="Theorems C20_shapes, C20_connectors, C20_points_distinct, C20_error_aborts, C20_first_error, C20_aborts_only_on_error (Properties/C20.v) about Model/Board.v for all graphs and all response scripts; tied to generate_miro_board by stubbing requests.post in the harness process and comparing the whole request sequence and final status.",
    note="Trusted: coqc kernel; corr/graph.py stub of requests.post and abstraction of payloads to (kind, endpoints, caption, integer position); HTTP transport and the Miro service are outside the model.",
    design="6/C20"),
+ "C01": dict(
+   technique="Coq proof (inversion of the model's acceptance into declarative facts) + whole-validator vs Coq model on scenarios and single-reference faults + retargeting sweep of shipped schemas",
+   text="Theorems C01_refs_resolve, C01_action_promise_resolves, C01_ids_distinct, C01_paths_declared, C01_path_segment_declared (Properties/C01.v): acceptance by the model (Model/Rules.v) implies that the reference at each of the 17 positions denotes exactly one declared entity of the allowed kind and that attribute paths follow declared attributes. The model's verdict is compared with the implementation's on conformant scenarios and on dangling / wrong-kind / undeclared-path faults at every position; the property's second sentence is additionally checked directly on every single-reference retargeting of the shipped valid schemas.",
+   note="Trusted: coqc kernel + vm_compute (case files); scenario generator/renderer/mutators (harness/scenario.py, mutators.py); Model/Rules.v is tied to the Python by differential testing bounded by the generator, not by proof about the Python; T1 default-value table. Known finding: path extension on references that take no path is accepted.",
+   design="6/C01"),
+ "C02": dict(
+   technique="Coq proof (DFS with shared visited set sound and complete w.r.t. the declarative dependency relation; acceptance implies acyclicity) + whole-validator vs Coq model on all digraphs over <=3 actions in 4 encodings, random scenarios and cycle mutants",
+   text="Theorems C02_cycle_never_accepted, C02_detector_sound, C02_acyclic_never_flagged, C02_dep_characterisation(_conforms) (Properties/C02.v): for every schema, acceptance implies that the dependency relation Dep of Spec/DepRel.v (own checkpoint through nested references + checkpoints of all enclosing thread groups) has no cycle; on acyclic schemas the detector never fires; the successor function is exactly Dep. Tie: the implementation's verdict equals the model's on every directed graph over 1-3 actions (sampled over 4-5) rendered in the encodings flat / nested / shared / thread-implicit, on random scenarios and on cycle mutants. Cycles across import connections: C16.",
+   note="Trusted: coqc kernel + vm_compute (case files); scenario generator/renderer/mutators (harness/scenario.py, mutators.py); Model/Rules.v is tied to the Python by differential testing bounded by the generator, not by proof about the Python; T1 default-value table.",
+   design="6/C02"),
+ "C03": dict(
+   technique="Coq: the executable specification `conforms` is the conjunction of the rules characterised in C01,C02,C04-C07,C10 (proved) + differential run: every scenario the specification accepts must be accepted by the implementation under every rendering",
+   text="Theorems C03_conforms_is_conjunction_of_rules, C03_known_finding_only_widens (Properties/C03.v). The statement 'conformant => accepted' is about the Python implementation and is carried by the correspondence: conformant-by-construction scenarios (3-14 actions, thread groups, edits, appends, all gate types, nested references), each rendered with id / alias / mixed spelling, shuffled arrays and optional descriptive properties, must be accepted; any rejection is reported with the document.",
+   note="Trusted: coqc kernel + vm_compute (case files); scenario generator/renderer/mutators (harness/scenario.py, mutators.py); Model/Rules.v is tied to the Python by differential testing bounded by the generator, not by proof about the Python; T1 default-value table. Pipelines and imports are covered by C08/C09/C16.",
+   design="6/C03"),
+ "C05": dict(
+   technique="Coq proof (scope membership = Encloses; SC1-SC7 from acceptance) + whole-validator vs Coq model on thread scenarios and scoping faults",
+   text="Theorems C05_SC1 ... C05_SC7, C05_has_access_is_Encloses, C05_has_access_sound (Properties/C05.v): acceptance implies each scoping clause of the property, stated with the declarative Encloses relation. Tie: conformant scenarios with thread groups (depth 2, own / inherited checkpoints, spawn from promise paths and from enclosing variables) and faults (checkpoint used outside its group, threaded action / variable compared outside, non-list spawn source, spawn source not fulfilled by an ancestor, unused group, variable name repeated in a chain).",
+   note="Trusted: coqc kernel + vm_compute (case files); scenario generator/renderer/mutators (harness/scenario.py, mutators.py); Model/Rules.v is tied to the Python by differential testing bounded by the generator, not by proof about the Python; T1 default-value table.",
+   design="6/C05"),
+ "C06": dict(
+   technique="Coq proof (lifecycle from acceptance; ancestry search = transitive closure of Dep) + whole-validator vs Coq model on create/edit scenarios and lifecycle faults",
+   text="Theorems C06_lifecycle, C06_creators_characterisation, C06_actions_on_characterisation, C06_is_ancestor_sound (Properties/C06.v) and C06_ancestor_search_sound/complete/exact, C06_group_ancestor_search_* (Properties/C06_ancestry.v): in an accepted schema every promise has exactly one fulfiller, the one action on it with no ancestor acting on it; contexts agree; every other action has it as ancestor; the model's ancestry search is exactly reachability in Dep whatever the route. Tie: conformant scenarios with editing actions (threaded and not) and faults (second creator, promise nobody fulfils, context mismatches).",
+   note="Trusted: coqc kernel + vm_compute (case files); scenario generator/renderer/mutators (harness/scenario.py, mutators.py); Model/Rules.v is tied to the Python by differential testing bounded by the generator, not by proof about the Python; T1 default-value table.",
+   design="6/C06"),
+ "C07": dict(
+   technique="Coq proof (operation rules from acceptance; guaranteed-ancestor search = inductive GuarCp; default-value table by exhaustive reflection) + whole-validator vs Coq model on operation faults",
+   text="Theorems C07_operations, C07_appends_path, C07_is_dependee_meaning, C07_settable_meaning (Properties/C07.v), C07_guaranteed_sound/complete/exact (Properties/C06_ancestry.v) and the default-value table (Proofs/C08Tables.v C07_default_lemma, regenerated T1). Tie: conformant scenarios with include/exclude/null, default values of every attribute type, default edges, appends_objects_to, and faults for each clause (unknown attribute, wrong-typed default, default for edge, default on edit, default edge to wrong promise / for a field, appends on edit / wrong collection / settable collection / by a dependee / ancestry only through one OR branch).",
+   note="Trusted: coqc kernel + vm_compute (case files); scenario generator/renderer/mutators (harness/scenario.py, mutators.py); Model/Rules.v is tied to the Python by differential testing bounded by the generator, not by proof about the Python; T1 default-value table.",
+   design="6/C07"),
+ "C12": dict(
+   technique="Coq proof of fuel adequacy of every search of the total Gallina model (partial: Python exceptions are runtime behaviour outside the model) + differential rewiring run: well-shaped documents must not raise",
+   text="Theorems C12_model_total, C12_cycle_search_fuel_adequate, C12_nesting_fuel_adequate, C12_ancestry_rounds_adequate, C12_guaranteed_fuel_adequate (Properties/C12.v): the model returns a verdict on every schema and running out of fuel never changes a verdict (cyclic action graphs and cyclic checkpoint nesting included). PARTIAL: that the Python code raises no exception is not a statement about the model; it is observed by validating conformant scenarios scrambled by 1-8 rewirings (any reference to any entity of any kind or to nothing, id/name collisions, retyped attributes, arbitrary and cyclic checkpoint nesting and thread-group contexts) and single-reference rewirings of all shipped schemas: any exception is a violation with the document as replay.",
+   note="Trusted: coqc kernel + vm_compute (case files); scenario generator/renderer/mutators (harness/scenario.py, mutators.py); Model/Rules.v is tied to the Python by differential testing bounded by the generator, not by proof about the Python; T1 default-value table. The interpreter's recursion limit on very long (hundreds of actions) finite chains is not exercised.",
+   design="6/C12"),
+ "C13": dict(
+   technique="Coq proof (state machine: results independent of history when every written field is re-initialised) over def/use data regenerated from the source by an ast pass + histories on one real instance vs a fresh instance",
+   text="Theorems C13_fields_covered (vm_compute over Gen/State.v, regenerated every run) and C13_no_carry_over (Properties/C13.v, histories of any length). Tie/search: 180+ histories of 2-8 validate() calls (dict / JSON string / file entry points) over families of documents sharing ids (scenario, re-renderings, single-fault variants; pipeline families; shipped schemas with imports and thread groups): every call must equal a fresh instance's exact error list; the caller's dict must be unchanged; module-level spec data must be unchanged.",
+   note="Trusted: tools/gen_state.py (fields are only touched through self.<name> syntax); deep equality as proxy for object identity.",
+   design="6/C13"),
+ "C14": dict(
+   technique="Coq proof (the model's verdict is invariant under permutation of every order-free list, for all schemas) + metamorphic run on the implementation tied to the model",
+   text="Theorems C14_top_level, C14_dependencies, C14_attributes, C14_inclusion_lists, C14_perm, C14_perm_kf (Properties/C14.v) for all schemas, accepted or not. Tie: each conformant scenario and each single-fault mutant is rendered in 4 declaration orders (top-level collections, attributes, dependencies, include/exclude lists, milestones, thread groups, key order); all four verdicts must agree with each other and with the model.",
+   note="Trusted: coqc kernel + vm_compute (case files); scenario generator/renderer/mutators (harness/scenario.py, mutators.py); Model/Rules.v is tied to the Python by differential testing bounded by the generator, not by proof about the Python; T1 default-value table.",
+   design="6/C14"),
+ "C15": dict(
+   technique="Coq proof (invariance of the model under injective renumbering of ids and renaming of names/variables/attributes; spelling does not exist in the abstract syntax) + metamorphic run on the implementation tied to the model",
+   text="Theorems C15_renumber_ids, C15_rename_names, C15_rename_and_renumber (Properties/C15.v) for all schemas. Tie: each conformant scenario and each single-fault mutant is rendered all-by-id, all-by-alias, mixed per occurrence, and consistently renumbered/renamed; the verdicts must agree with each other and with the model.",
+   note="Trusted: coqc kernel + vm_compute (case files); scenario generator/renderer/mutators (harness/scenario.py, mutators.py); Model/Rules.v is tied to the Python by differential testing bounded by the generator, not by proof about the Python; T1 default-value table. Known finding (C10/C15): checkpoint composite duplicates under different spelling.",
+   design="6/C15"),
 }
 
 PENDING_REASON = "check under construction in this session; not yet claimed"
